@@ -42,7 +42,8 @@ func decodeFen(s string) (ev out.M) {
 		ev["val"] = out.M{}
 	default:
 		re := fen.Encode(pos, turn, np, fm)
-		val := out.M{"pos": proj.Position(pos, turn), "np": np, "fm": fm, "reenc": re}
+		// clocks as decimal strings: they may exceed what the model checker's integers hold
+		val := out.M{"pos": proj.Position(pos, turn), "np": fmt.Sprint(np), "fm": fmt.Sprint(fm), "reenc": re}
 		// every view of the decoded position must agree with the square lookup
 		consistent := true
 		for c := board.ZeroColor; c < board.NumColors; c++ {
@@ -63,7 +64,7 @@ func decodeFen(s string) (ev out.M) {
 		if err2 != nil || p2 == nil {
 			val["dec2"] = out.M{"ok": false}
 		} else {
-			val["dec2"] = out.M{"ok": true, "pos": proj.Position(p2, t2), "np": np2, "fm": fm2}
+			val["dec2"] = out.M{"ok": true, "pos": proj.Position(p2, t2), "np": fmt.Sprint(np2), "fm": fmt.Sprint(fm2)}
 		}
 		ev["outcome"] = "value"
 		ev["val"] = val
@@ -74,10 +75,19 @@ func decodeFen(s string) (ev out.M) {
 var junk = []string{"", " ", "  ", "/", "9", "0", "x", "K", "k", "-", "w", "b", "KQkq", "e3", "e9", "i3", "-1", "+1", "1e3",
 	"99999999999999999999", "\t", "\n", "\x00", "é", "٣", "８", "\U0001F600", "8/8", "pppppppp", "88", "44", "1111"}
 
+var numEdges = []string{"2147483647", "2147483648", "4294967295", "4294967296", "9223372036854775807", "9223372036854775808",
+	"18446744073709551615", "18446744073709551616", "-0", "+5", "00", "007", "1e2", "0x10", "1_000", "١٢", " 5", "5.0", "-9223372036854775808"}
+
 func mutate(r *rand.Rand, s string) string {
 	rs := []rune(s)
 	for k := 0; k < 1+r.Intn(3); k++ {
-		switch r.Intn(10) {
+		switch r.Intn(11) {
+		case 10: // a clock field replaced by a numeric edge case
+			parts := strings.Split(string(rs), " ")
+			if len(parts) == 6 {
+				parts[4+r.Intn(2)] = numEdges[r.Intn(len(numEdges))]
+				rs = []rune(strings.Join(parts, " "))
+			}
 		case 9: // 256 extra blank squares somewhere in the placement (wraps an 8-bit counter exactly)
 			i := r.Intn(len(rs) + 1)
 			rs = append(rs[:i], append([]rune(strings.Repeat("8", 32)), rs[i:]...)...)
@@ -191,6 +201,8 @@ func textfuzz(args []string) {
 		"rnbqkbnr/pppppppp/8/8/8/8/PPPPPPPP/RNBQKBNR w KQkq h1 0 1", "rnbqkbnr/pppppppp/8/8/8/8/PPPPPPPP/RNBQKBNR w KQkq - 0 1 extra",
 		"rnbqkbnr/pppppppp/44/8/8/8/PPPPPPPP/RNBQKBNR w KQkq - 0 1", "rnbqkbnrr/pppppppp/8/8/8/8/PPPPPPPP/RNBQKBNR w KQkq - 0 1",
 		"rnbqkbnr/pppppppp/8/8/8/8/PPPPPPPP/RNBQKBN w KQkq - 0 1", "rnbqkbnr/pppppppp/8/8/8/8/PPPPPPPP w KQkq - 0 1",
+		"4k3/8/8/8/8/8/8/4K3 w - - 18446744073709551615 1", "4k3/8/8/8/8/8/8/4K3 w - - 9223372036854775808 1",
+		"4k3/8/8/8/8/8/8/4K3 w - - 0 18446744073709551615", "4k3/8/8/8/8/8/8/4K3 w - - 9223372036854775807 9223372036854775807",
 		"", " ", "w", "\x00", "٣٣/8/8/8/8/8/8/8 w - - 0 1", "8/8/8/8/8/8/8/８ w - - 0 1",
 	}
 	emit := func(s string) { w.Emit(decodeFen(s)) }
